@@ -110,7 +110,7 @@ func runC28(c *core.Ctx) error {
 		c.Add("transitions", res2.Generated)
 		c.Logf("pairs of edits (exhaustive over %d bases): %d states (%v)", len(small), res2.Distinct, res2.Wall.Round(time.Second))
 	} else {
-		res2, err := runMC(c, bases, mcOpts{Mode: "mixed", MaxEdits: 2, EvalWC: false, Strict: false, Workers: 4, Simulate: 100,
+		res2, err := runMC(c, bases, mcOpts{Mode: "mixed", MaxEdits: 2, EvalWC: false, Strict: false, Workers: 4, Simulate: 70,
 			Timeout: 3 * time.Minute}, handle)
 		if err != nil {
 			return err
@@ -147,7 +147,7 @@ func runC28(c *core.Ctx) error {
 	// the recorded trace: every accepted call, and a bounded sample of the rejected ones
 	var evs []traceEvent
 	var evCase []int
-	maxRejected := c.Pick(300, 1500)
+	maxRejected := c.Pick(150, 1500)
 	nRej := 0
 	order := rnd.Perm(len(cases))
 	for _, i := range order {
@@ -206,16 +206,19 @@ func runC28(c *core.Ctx) error {
 			explained++
 			continue
 		}
+		key := strings.Join(ul, "+")
+		if len(pc.m.Log) == 1 {
+			roots[key]++
+			if roots[key] > 1 {
+				continue // same class as an already reproduced and reported case
+			}
+		}
 		r2, err := l.fresh(old, pc.m.New)
 		if err != nil {
 			return err
 		}
 		if !r2.Accepted {
 			return fmt.Errorf("acceptance of %s not reproduced in a fresh process", logLabel(pc.m.Log))
-		}
-		key := strings.Join(ul, "+")
-		if len(pc.m.Log) == 1 {
-			roots[key]++
 		}
 		what := fmt.Sprintf("the linter accepts (%s) but old encodings are not preserved by the new schema (WireCompatible is false in SchemaEvolution.tla)", logLabel(pc.m.Log))
 		if r2.GenErrNew != "" {
